@@ -650,7 +650,7 @@ func main() {
 	env, rep := vh.Parse("C20")
 	rng := vh.NewRng(env.Seed)
 	rep.Rule = "a case is one ordered pair (a,b) inside a pool of 4-8 related values (same type / mixed types / mutants of one tree: " +
-		"reordered or replaced map keys, changed leaves, nil vs empty payloads, NaNs / a value and its decoding / one value of every type built from the same content (all ordered type pairs) / payloads that are windows of one shared backing array with their independent copies / containers built through mutation histories next to plainly built twins); laws are evaluated on all pairs and triples of a pool; " +
+		"reordered or replaced map keys, changed leaves, nil vs empty payloads, NaNs / a value and its decoding / one value of every type built from the same content (all ordered type pairs) / payloads that are windows of one shared backing array with their independent copies / containers built through mutation histories next to plainly built twins / chains of neighbouring representable numbers and offsets around 1e-6 for every numeric type, bare and inside arrays, lists and maps); laws are evaluated on all pairs and triples of a pool; " +
 		"non-trivial = a and b are not both null; distinct by the two one-line forms"
 
 	var pools []pool
@@ -757,6 +757,7 @@ func main() {
 		pools = append(pools, crossTypePools()...)
 		pools = append(pools, aliasPools(rng.Fork(), env.Thorough)...)
 		pools = append(pools, historyPools(rng.Fork(), env.Thorough)...)
+		pools = append(pools, nearPools(rng.Fork(), env.Thorough)...)
 	}
 
 	// ---- model
@@ -1029,6 +1030,9 @@ func main() {
 						lawFail("eq-types", []int{i, j}, false, "values of different types are Equal")
 					}
 				} else if scalarKind(a.K) {
+					if pe, def := payloadEq(a, b); def && pe != impl[i][j].eq {
+						lawFail("eq-exact", []int{i, j}, false, fmt.Sprintf("scalars: Equals is %v although the payloads are %s", impl[i][j].eq, map[bool]string{true: "equal", false: "different"}[pe]))
+					}
 					if (impl[i][j].cmp == 0) != impl[i][j].eq {
 						lawFail("cmp-zero-iff-eq", []int{i, j}, false, fmt.Sprintf("scalars: CompareTo sign %d but Equals %v", impl[i][j].cmp, impl[i][j].eq))
 					}
@@ -1063,6 +1067,18 @@ func main() {
 							key += "-" + p.route()
 							if p.hseed != nil {
 								vv = p.vs
+							}
+						}
+						if p.gos == nil {
+							// property-directed search: the pair, its numeric neighbours and the rest of the pool
+							if law, lv, what := searchAround(p.vs[i], p.vs[j], p.vs); law != "" {
+								m2 := "Equals"
+								if strings.HasPrefix(law, "cmp") {
+									m2 = "CompareTo"
+								}
+								failOnce("property", typeOf(lv[0])+"."+m2+":"+law,
+									what+" (found around a pair on which implementation "+impl[i][j].String()+" and model "+model[i][j]+" disagree)", lv, nil)
+								continue
 							}
 						}
 						failOnce("correspondence", key,
